@@ -110,7 +110,8 @@ impl Log {
     pub fn new(path: Option<&str>) -> Log {
         let (out, cur, hpath) = match path {
             Some(p) => (
-                Some(File::create(p).expect("create log")),
+                // append: under `-Zmiri-many-seeds` the same worker command runs once per seed
+                Some(std::fs::OpenOptions::new().create(true).append(true).open(p).expect("create log")),
                 Some(File::create(format!("{}.cur", p)).expect("create cur")),
                 Some(format!("{}.h", p)),
             ),
